@@ -833,6 +833,8 @@ def run(chk):
         "fchmodat guarded by !S_ISLNK); (d) duplicate check and O_EXCL creation pass dominate the passes that re-open "
         "by path, failed chdir never unpacks; (e) command-line paths canonicalised; (f) get_path refuses '/', '.', '..'. Further rules: K2-sorttotal (the sort returns its input unsorted only in the trivial cases or after a full adjacent scan), K2-walk (the sorting/checking pass reaches every directory), K12-flags also rejects name-creating calls outside the reviewed set; K1-order follows the check into helpers.")
     chk.assumptions = ["that sort + adjacent compare finds every duplicate, and races with other processes, are not decided"]
+    from .. import taint
+    taint.CONTENT[0] = True      # a copy or a hand-filled buffer is judged by what was copied into it
     sinks = PathSinks(prog)
     mset = sinks.reaches_M()
     chk.note("mutating call sites in the closure: %d; parameter sinks: %s; deferred sink fields: %s" % (
